@@ -289,7 +289,13 @@ class SingleMarkerLike(BaseMarker, ABC, Generic[SingleMarkerConstraint]):
         # The type of constraint returned by the parser matches our constraint: either
         # both are BaseConstraint or both are VersionConstraint. But it's hard for mypy
         # to know that.
-        constraint = self._parser(environment[self._name])
+        constraint: BaseConstraint | VersionConstraint
+        if isinstance(self._constraint, VersionConstraint):
+            constraint = self._parser(environment[self._name])
+        else:
+            # the value of the environment is a plain string, not a constraint
+            # (it may contain whitespace, e.g. platform_version)
+            constraint = Constraint(environment[self._name])
         return self._constraint.allows(constraint)  # type: ignore[arg-type]
 
     def without_extras(self) -> BaseMarker:
